@@ -334,6 +334,11 @@ func RunCrash(h History, k int, cutFrac float64, recoveryCrashes []int) (*Result
 			alive, reached := h.drive(n, scripts, target, mk, &res.Trace)
 			if alive {
 				n.Stop()
+				// C15: what this incarnation logged with an acknowledged sync must be readable now (a restart that
+				// left a torn record in place would have appended behind it)
+				if v := CheckWALReadable(n); v != "" {
+					res.fail("C15", fmt.Sprintf("after crashes %v (wal cut %d in [%d,%d], repaired=%v): %s", res.Crashes, res.CutAt, res.HeadSynced, res.HeadOnDisk, n.Repaired, v))
+				}
 				if inc == 0 {
 					res.NoCrash = true
 					res.OpsTotal = n.C.N
